@@ -47,7 +47,7 @@ class Loop:
 
 
 class Stats:
-    FIELDS = ("paths", "queries", "solver_s", "forks", "obligations", "discharged", "trivial",
+    FIELDS = ("paths", "queries", "cache_hits", "solver_s", "forks", "obligations", "discharged", "trivial",
               "merges", "commits", "value_forks", "aborted")
 
     def __init__(self):
@@ -103,18 +103,38 @@ class Engine:
         self.stubs = {}
         self.hooks = {}                   # harness-level hooks
         self.lazy_pkgs = set()            # packages whose __init__ is only run on demand
+        self.qcache = {}
+        self.pc_hash = 0
+        self.pc_refs = []
         from . import builtins as _b
         _b.install(self)
 
     # ------------------------------------------------------------------ solver
-    def _check(self, *extra):
+    def _check(self, *extra, need_model=False):
+        """Satisfiability of path-condition + extra.  Results are memoised on (fingerprint of the assertion
+        stack, ids of the extra terms): re-execution replays the same prefix on every path, so most
+        queries of a path were already answered on an earlier one."""
+        key = (self.pc_hash, tuple(e.get_id() for e in extra))
+        if not need_model:
+            hit = self.qcache.get(key)
+            if hit is not None:
+                self.stats.cache_hits += 1
+                return hit[0]
         t = time.time()
         self.stats.queries += 1
         r = self.solver.check(*extra)
         self.stats.solver_s += time.time() - t
         if r == z3.unknown:
             raise Inconclusive(f"solver returned unknown ({self.solver.reason_unknown()})")
-        return r == z3.sat
+        res = r == z3.sat
+        if len(self.qcache) < 2000000:
+            self.qcache[key] = (res, extra)      # keeping the terms alive keeps their ids unique
+        return res
+
+    def add_pc(self, e):
+        self.solver.add(e)
+        self.pc_hash = hash((self.pc_hash, e.get_id()))
+        self.pc_refs.append(e)
 
     def feasible(self, g):
         if g is True:
@@ -128,7 +148,7 @@ class Engine:
             return
         if e is False:
             raise PathAbort()
-        self.solver.add(e)
+        self.add_pc(e)
 
     def _fork(self, cond):
         """Decide a z3 Bool under the current path condition; may fork the path."""
@@ -143,7 +163,7 @@ class Engine:
             if not isinstance(d, bool):
                 raise Unsupported("trace desynchronised (expected decision)")
             self.tpos += 1
-            self.solver.add(cond if d else z3.Not(cond))
+            self.add_pc(cond if d else z3.Not(cond))
             return d
         t_ok = self._check(cond)
         if not t_ok:
@@ -159,7 +179,7 @@ class Engine:
         self.work.append(self.trace + [False])
         self.trace.append(True)
         self.tpos += 1
-        self.solver.add(cond)
+        self.add_pc(cond)
         return True
 
     def commit(self):
@@ -206,7 +226,7 @@ class Engine:
             raise DeadBranch()
         if g is not True:
             # predicated code often makes a value look symbolic although the guard determines it
-            if not self._check(g):
+            if not self._check(g, need_model=True):
                 self.g = False
                 raise DeadBranch()
             val = self.solver.model().eval(e, model_completion=True).as_long()
@@ -219,22 +239,22 @@ class Engine:
                 raise Unsupported("trace desynchronised (expected value)")
             if ent[0] == "val":
                 self.tpos += 1
-                self.solver.add(e == ent[1])
+                self.add_pc(e == ent[1])
                 return ent[1]
             excl = list(ent[1])
             if len(excl) > self.value_cap:
                 raise Inconclusive(f"value-fork cap {self.value_cap} exceeded")
-            if not self._check(*[e != x for x in excl]):
+            if not self._check(*[e != x for x in excl], need_model=True):
                 raise PathAbort()
             val = self.solver.model().eval(e, model_completion=True).as_long()
             self.trace = self.trace[: self.tpos]
             self.work.append(self.trace + [("pend", excl + [val])])
             self.trace.append(("val", val))
             self.tpos += 1
-            self.solver.add(e == val)
+            self.add_pc(e == val)
             self.stats.value_forks += 1
             return val
-        if not self._check():
+        if not self._check(need_model=True):
             raise PathAbort()
         val = self.solver.model().eval(e, model_completion=True).as_long()
         # is it the only value?
@@ -243,7 +263,7 @@ class Engine:
             self.stats.value_forks += 1
         self.trace.append(("val", val))
         self.tpos += 1
-        self.solver.add(e == val)
+        self.add_pc(e == val)
         return val
 
     # ------------------------------------------------------------------ heap helpers
